@@ -131,6 +131,12 @@ def r04_2_refine_exact(repo: Repo, rep: Report):
         exp = expected_definition(name, op, width)
         ok = len(got) == 1 and exp is not None and _norm(got[0]) == _norm(exp)
         rep.check("R04.2", ok, m, fn, f"{name} -> {out[:150]}", f"refinement of {name} is not the exact EVM definition {exp}")
+    # round 7: each rewrite is global - a query declares several abstractions of one family (DIV and MOD, 256 and 512
+    # bits), so a `count` limit leaves all but the first uninterpreted while the query is labelled refined
+    for _, _, c in subs:
+        cnt = [k.value for k in c.keywords if k.arg == "count"] + list(c.args[3:4])
+        ok = not cnt or (isinstance(cnt[0], ast.Constant) and cnt[0].value == 0)
+        rep.check("R04.2", ok, m, c, f"re.sub(.., smtlib{', count=' + src(cnt[0]) if cnt else ''})", "every declaration matched by the pattern must be rewritten (no count limit)")
     # a second declaration in the same query is rewritten too (re.sub is global) and unrelated text is untouched
     probe = "(declare-fun f_evm_bvudiv_256 ((_ BitVec 256) (_ BitVec 256)) (_ BitVec 256))\n(declare-fun p_x_uint256 () (_ BitVec 256))\n(assert (= (f_evm_bvudiv_256 p_x_uint256 p_x_uint256) p_x_uint256))"
     out = probe
